@@ -69,39 +69,41 @@ type EntrySym struct {
 }
 
 type Gen struct {
-	ctx           *Ctx
-	top           *ssa.Function
-	topC          *Contract
-	lines         []string
-	nsym          int
-	obls          []*Obligation
-	declared      map[string]bool
-	notes         map[string]bool
-	kindCount     map[string]int
-	entrySyms     []EntrySym
-	havocCallees  map[string]bool
-	usedContracts map[string]bool
-	usedTrusted   map[string]bool
-	nepoch        int
-	entryW        Term
-	topMods       []ModEntry
-	mode          string // "", "threadlocal"
-	strLits       map[string]Term
-	unsupported   []string
-	specErrs      []string
-	noName        int
-	usedPure      map[string]bool
-	declLine      map[string]int
-	lemmaKey      string
-	skipInvs      bool
-	muteObl       int
-	keyKind       map[string]CompKind
-	usedInvs      map[string]bool
+	ctx             *Ctx
+	top             *ssa.Function
+	topC            *Contract
+	lines           []string
+	nsym            int
+	obls            []*Obligation
+	declared        map[string]bool
+	notes           map[string]bool
+	kindCount       map[string]int
+	entrySyms       []EntrySym
+	havocCallees    map[string]bool
+	usedContracts   map[string]bool
+	usedTrusted     map[string]bool
+	nepoch          int
+	entryW          Term
+	topMods         []ModEntry
+	mode            string // "", "threadlocal"
+	strLits         map[string]Term
+	unsupported     []string
+	specErrs        []string
+	noName          int
+	usedPure        map[string]bool
+	declLine        map[string]int
+	lemmaKey        string
+	skipInvs        bool
+	muteObl         int
+	keyKind         map[string]CompKind
+	atReturnUsed    map[string]int
+	atReturnSkipped map[string]int
+	usedInvs        map[string]bool
 }
 
 func newGen(ctx *Ctx, fn *ssa.Function) *Gen {
 	g := &Gen{ctx: ctx, top: fn, declared: map[string]bool{}, notes: map[string]bool{}, kindCount: map[string]int{},
-		havocCallees: map[string]bool{}, usedContracts: map[string]bool{}, usedTrusted: map[string]bool{}, strLits: map[string]Term{}, usedPure: map[string]bool{}, declLine: map[string]int{}, usedInvs: map[string]bool{}, keyKind: map[string]CompKind{}}
+		havocCallees: map[string]bool{}, usedContracts: map[string]bool{}, usedTrusted: map[string]bool{}, strLits: map[string]Term{}, usedPure: map[string]bool{}, declLine: map[string]int{}, usedInvs: map[string]bool{}, keyKind: map[string]CompKind{}, atReturnUsed: map[string]int{}, atReturnSkipped: map[string]int{}}
 	g.emit("(declare-fun strlen (Int) Int)")
 	g.emit("(assert (forall ((s Int)) (! (>= (strlen s) 0) :pattern ((strlen s)))))")
 	g.emit("(declare-fun band (Int Int) Int)")
